@@ -32,7 +32,8 @@ ASSUMPTIONS = ["iterables without aclose get a neutral context: only the in-bloc
 EXHAUSTIVE_SUBSPACES = 'nested scopes of depth 2..3 left in every order x 3 underlying kinds x 0..2 items taken'
 EXHAUSTIVE = {"quick": False, "thorough": False}
 N_PROG = {"quick": 4000, "thorough": 200000}
-FLAVS = ["async_gen", "async_class", "async_class", "async_class_bare", "sync_iter", "slowclose", "failclose"]
+FLAVS = ["async_gen", "async_class", "async_class", "async_class_bare", "sync_iter", "slowclose", "failclose", "async_class_proxy"]
+CLASS_CLOSABLE = ("async_class", "async_class_proxy")
 
 
 class CloseError(Exception):
@@ -99,7 +100,7 @@ def cases(tier, seed, shard, nshards):
     rng = random.Random(f"C08-{seed}-{shard}")
     import itertools as _it
     k = 0
-    for flav in ("async_class", "async_gen", "async_class_bare"):
+    for flav in ("async_class", "async_gen", "async_class_bare", "async_class_proxy"):
         for taken in (0, 1, 2):
             for how in ("normal", "exception", "cancel"):
                 if how == "cancel" and flav == "async_gen":
@@ -109,7 +110,7 @@ def cases(tier, seed, shard, nshards):
                     yield {"kind": "borrowed", "flav": flav, "taken": taken, "how": how, "keys": [0, 1, 2, 3, 0, 1]}
     for depth in (2, 3):
         for order in _it.permutations(range(depth)):
-            for flav in ("async_class", "async_gen", "slowclose", "async_class_full"):
+            for flav in ("async_class", "async_gen", "slowclose", "async_class_full", "async_class_proxy"):
                 for taken in (0, 1, 2):
                     k += 1
                     if k % nshards == shard:
@@ -126,7 +127,7 @@ def execute(case, raise_at=None, cancel_at=None, susp=0, raise_type="Exception",
     st = SrcState(0, [Item(k, (0, i), truth=k != 0) for i, k in enumerate(keys)], Plan(susp), log=False)
     special = case["flav"] in ("slowclose", "failclose")
     under = _special_source(st, case["flav"]) if special else make_source(st, case["flav"])
-    closable = case["flav"] in ("async_gen", "async_class") or special
+    closable = case["flav"] in ("async_gen",) + CLASS_CLOSABLE or special
     model = CountIt([Item(k, (0, i), truth=k != 0) for i, k in enumerate(keys)])
     viols = []
     head = f"scoped_iter under={case['flav']} keys={keys} block={case['block']} raise_at={raise_at} cancel_at={cancel_at}"
@@ -240,7 +241,7 @@ def execute(case, raise_at=None, cancel_at=None, susp=0, raise_type="Exception",
                 outcome["exit"] = f"other:{type(exc).__name__}"
         # ---- after the outermost exit -------------------------------------------------------
         if closable:
-            if (case["flav"] == "async_class" or special) and st.closed != 1:
+            if (case["flav"] in CLASS_CLOSABLE or special) and st.closed != 1:
                 fail("scoped_iter/close-count", f"underlying aclose called {st.closed} times after the outermost exit "
                                                 f"({outcome['exit']})")
             if case["flav"] == "async_gen" and not st.finished_gen():
@@ -355,7 +356,7 @@ def run_manual(case, stats):
                             viols.append({"key": "scoped_iter/outer-handle-dead-after-inner-exit",
                                           "msg": f"{head}: handle of level {lv} is dead after only inner scopes {sorted(exited)} ended"})
                             return
-        if case["flav"] in ("async_class", "slowclose") and st.closed != 1:
+        if case["flav"] in CLASS_CLOSABLE + ("slowclose",) and st.closed != 1:
             viols.append({"key": "scoped_iter/close-count", "msg": f"{head}: underlying aclose called {st.closed} times"})
 
     drive(main())
@@ -460,7 +461,7 @@ def run_case(case, stats: Counter):
     for k in range(1, nops + 1):
         # the way the block is left rotates over Exception / BaseException / GeneratorExit / KeyboardInterrupt
         one(raise_at=k, raise_type=kinds[(k + len(case["keys"])) % len(kinds)])
-    if case["flav"] in ("async_class", "async_gen", "async_class_bare", "slowclose", "failclose"):
+    if case["flav"] in ("async_class", "async_gen", "async_class_bare", "slowclose", "failclose", "async_class_proxy"):
         info = one(susp=1)
         for i in range(1, info["suspensions"] + 1):
             one(susp=1, cancel_at=i)
